@@ -218,10 +218,11 @@ func genAdderProgram(rng *rand.Rand, family string, float bool, mutex bool) (ths
 	if pow2 && !float {
 		units = rng.Intn(8) == 0
 	}
-	// "wild" float runs (a third of the float runs of family any): arbitrary finite doubles of all magnitudes (subnormals to 2^900,
+	// "wild" float runs (a third of the float runs outside the power-of-two family): arbitrary finite doubles of all magnitudes (subnormals to 2^900,
 	// both signs), so that every addition rounds. There is no order-independent reference for such sums: these runs are judged by the
-	// step-level acceptance against the exact IEEE-754 model only (the Go monitors are switched off for them).
-	lastWild = float && family == "any" && rng.Intn(3) == 0
+	// step-level acceptance against the exact IEEE-754 model, and by the part of the Go monitor that needs no reference for a sum of
+	// several rounded terms: what a solo phase reads right after Reset / SumAndReset / Store, and after one further update (C16).
+	lastWild = float && family != "pow2" && rng.Intn(3) == 0
 	wildVal := func() int64 {
 		e := uint64(rng.Intn(1924)) // biased exponent 0 (subnormal) .. 1923 (2^900)
 		m := rng.Uint64() & (1<<52 - 1)
@@ -351,12 +352,17 @@ func runAdder(fs *flag.FlagSet, args []string) {
 		if family == "any" {
 			family = []string{"pow2", "mix", "contend", "grow"}[rng.Intn(4)]
 		}
+		growPalette := rng.Intn(2)
 		fastrand.Next = func() uint32 {
 			if family == "contend" {
 				return []uint32{1, 3, 5, 7, 9, 1, 1, 3}[rng.Intn(8)]
 			}
 			if family == "grow" {
 				// everybody hashes to the same few cells: repeated CAS failures drive the table through its growth steps
+				if growPalette == 1 {
+					// one hot cell plus newcomers to the other slots: cells are attached while the table is being replaced
+					return []uint32{1, 1, 1, 2, 1, 3, 1, 4, 1, 6, 1, 7}[rng.Intn(12)]
+				}
 				return []uint32{1, 1, 1, 5, 1, 9, 1, 13}[rng.Intn(8)]
 			}
 			if rng.Intn(4) == 0 {
@@ -389,8 +395,8 @@ func runAdder(fs *flag.FlagSet, args []string) {
 			fmt.Fprintf(out, "reset sadder %s\n", *impl)
 		}
 		s := newSched(rng, len(ths))
-		if family == "contend" || family == "grow" {
-			s.stick = 0
+		if family == "contend" || (family == "grow" && growPalette == 0) {
+			s.stick = 0 // (the newcomer palette keeps the drawn stickiness: an attach completes inside another thread's table replacement)
 		}
 
 		var bodies []func()
@@ -437,7 +443,7 @@ func (r *arun) plus(a, b int64) int64 {
 
 func monitorAdder(r *arun, ths []athread, xs []int64, mutex bool) string {
 	if r.wild {
-		return "" // arbitrary floats: acceptance against the exact model only
+		return monitorWildSolo(r, ths, xs)
 	}
 	zero := int64(0)
 	if r.float {
@@ -602,6 +608,62 @@ func monitorAdder(r *arun, ths []athread, xs []int64, mutex bool) string {
 		return fmt.Sprintf("%s after all updates returned Sum=%s but the exact total is %s", tag, last.res, r.val(ref))
 	}
 	return ""
+}
+
+// monitorWildSolo: arbitrary floats. The sum of several rounded terms depends on which cell each landed in, so there is no reference
+// for it; but a solo phase (no other thread active) that has just set the adder (Reset / SumAndReset leave +0, Store(v) leaves v)
+// holds that number exactly, and one further update x makes it fl(v + x) wherever x lands (all other cells are +0; v is never -0).
+func monitorWildSolo(r *arun, ths []athread, xs []int64) string {
+	byPhase := map[int]map[int]bool{}
+	for _, o := range r.h.ops {
+		p := ths[o.tid].phase
+		if byPhase[p] == nil {
+			byPhase[p] = map[int]bool{}
+		}
+		byPhase[p][o.tid] = true
+	}
+	exact, adds := false, 0
+	var ref int64
+	lastPhase := -1
+	for _, o := range r.h.ops {
+		p := ths[o.tid].phase
+		if len(byPhase[p]) != 1 {
+			exact = false
+			continue
+		}
+		if p != lastPhase && lastPhase >= 0 && len(byPhase[lastPhase]) != 1 {
+			exact = false
+		}
+		lastPhase = p
+		switch o.kind {
+		case "reset":
+			exact, adds, ref = true, 0, bf(0)
+		case "sar":
+			if exact && o.res != r.val(ref) {
+				return fmt.Sprintf("C16 solo SumAndReset returned %s (%v); the adder held exactly %s (%v)", o.res, resFloat(o.res), r.val(ref), fb(ref))
+			}
+			exact, adds, ref = true, 0, bf(0)
+		case "store":
+			exact, adds, ref = true, 0, o.x
+		case "add", "inc", "dec":
+			if exact && adds == 0 {
+				ref, adds = r.plus(ref, xs[o.arg]), 1
+			} else {
+				exact = false
+			}
+		case "sum":
+			if exact && o.res != r.val(ref) {
+				return fmt.Sprintf("C16 solo Sum returned %s (%v) after the adder was set and at most one update made; it holds exactly %s (%v)", o.res, resFloat(o.res), r.val(ref), fb(ref))
+			}
+		}
+	}
+	return ""
+}
+
+func resFloat(s string) float64 {
+	var u uint64
+	fmt.Sscan(s, &u)
+	return math.Float64frombits(u)
 }
 
 func storeArg(ths []athread, o *opRec) int64 {
